@@ -119,7 +119,8 @@ Take(c, S) == (net (-) SetToBag({c})) (+) SetToBag(S)
 \*       active  register() was called and neither unregister() nor a stop of the renewals since
 \*       prom  the earliest instant by which a Read-FDT reply promised the entry to be purged (remaining seconds as
 \*             reported, counted in whole-second boundaries); void on re-registration / deletion
-H0 == [reg |-> NONE, ack |-> NONE, live |-> NONE, kill |-> "none", killAt |-> NONE, active |-> FALSE, prom |-> NONE]
+H0 == [reg |-> NONE, ack |-> NONE, live |-> NONE, kill |-> "none", killAt |-> NONE, active |-> FALSE, prom |-> NONE,
+       infl |-> 0]     \* registrations (TTL > 0) of the device still under way when it unregistered: those may overtake
 RECURSIVE Promise(_, _, _, _, _)
 Promise(hh, b, tab, i, t) ==
     IF i > Len(tab) THEN hh
@@ -162,11 +163,20 @@ NewBc(hh, o, t) ==
         never |-> ((Nodes \ FDs) \ (nf \cup {o})) \cup fn,
         why |-> [f \in fn |-> IF BBMDof[f] \notin FanB(o) THEN "unreachable" ELSE WhyNot(hh, f, t)]]
 
+RECURSIVE Sum(_, _)
+Sum(f, S) == IF S = {} THEN 0 ELSE LET x == CHOOSE y \in S : TRUE IN f[x] + Sum(f, S \ {x})
+
 HUpd(hh, a, t) ==
     CASE a.n = "Rx" ->
             LET c == a.c IN
             IF c.fn = "RG" /\ IsB(c.to) /\ IsF(c.src) /\ BBMDof[c.src] = c.to /\ c.arg > 0
-              THEN [hh EXCEPT ![c.src].reg = t, ![c.src].kill = "none", ![c.src].killAt = NONE, ![c.src].prom = NONE]
+                 /\ hh[c.src].kill = "unreg" /\ ~hh[c.src].active /\ hh[c.src].infl = 0
+              \* a registration the device sent when or after it unregistered (none was under way then): the obligation
+              \* to stop within the grace period stands, whatever the BBMD makes of the frame
+              THEN hh
+            ELSE IF c.fn = "RG" /\ IsB(c.to) /\ IsF(c.src) /\ BBMDof[c.src] = c.to /\ c.arg > 0
+              THEN [hh EXCEPT ![c.src].reg = t, ![c.src].kill = "none", ![c.src].killAt = NONE, ![c.src].prom = NONE,
+                              ![c.src].infl = IF @ > 0 /\ ~hh[c.src].active THEN @ - 1 ELSE @]
             ELSE IF c.fn = "RG" /\ IsB(c.to) /\ IsF(c.src) /\ BBMDof[c.src] = c.to /\ c.arg = 0
               \* the BBMD processes an unregistration (possibly overtaken by a renewal still under way)
               THEN [hh EXCEPT ![c.src].kill = "unreg", ![c.src].killAt = IF hh[c.src].kill = "unreg" THEN @ ELSE t,
@@ -179,9 +189,10 @@ HUpd(hh, a, t) ==
               THEN [hh EXCEPT ![c.to].ack = t, ![c.to].live = t]
             ELSE IF c.fn = "RF" /\ IsB(c.to) THEN Promise(hh, c.to, a.rt, 1, t)
             ELSE hh
-      [] a.n = "FDRegister"   -> [hh EXCEPT ![a.who].active = TRUE, ![a.who].live = NONE]
       [] a.n = "FDUnregister" -> [hh EXCEPT ![a.who].kill = "unreg", ![a.who].killAt = t, ![a.who].ack = NONE,
-                                            ![a.who].live = NONE, ![a.who].active = FALSE]
+                                            ![a.who].live = NONE, ![a.who].active = FALSE,
+                                            ![a.who].infl = Sum(net, {c \in BagToSet(net) : c.fn = "RG" /\ c.src = a.who /\ c.arg > 0})]
+      [] a.n = "FDRegister"   -> [hh EXCEPT ![a.who].active = TRUE, ![a.who].live = NONE, ![a.who].infl = 0]
       [] a.n = "FDStopRenew"  -> [hh EXCEPT ![a.who].active = FALSE, ![a.who].live = NONE]
       [] OTHER -> hh
 
@@ -378,8 +389,6 @@ Next ==
 Spec == Init /\ [][Next]_vars
 
 \* ---- the property (C13) -------------------------------------------------------------------------------------
-RECURSIVE Sum(_, _)
-Sum(f, S) == IF S = {} THEN 0 ELSE LET x == CHOOSE y \in S : TRUE IN f[x] + Sum(f, S \ {x})
 Count(n, mid) == Sum(up, {u \in BagToSet(up) : u[1] = n /\ u[2] = mid})
 Settled(mid) == \A c \in BagToSet(net) : ~(c.fn \in NPDUFn /\ c.mid = mid)
 Mids == DOMAIN bc
